@@ -1,6 +1,7 @@
 import OnetVerif.Model.Util
 import OnetVerif.Model.C09Entries
 import OnetVerif.Model.C09Local
+import OnetVerif.Model.C09Recv
 import OnetVerif.Generated
 /-! Model for property C09 — peer failures are contained, reported to senders, and recoverable
 (core-only).
@@ -179,6 +180,13 @@ def run (s : St) : List Act → St
   | [] => s
   | a :: l => run (step s a).1 l
 
+/-- the receive loop of connection `cid` has returned: a fatal error is `detect` (handlers, then the
+deferred removal); a paused or closed router only runs the deferred removal -/
+def endLoop (s : St) (cid : Nat) : Option Exit → St
+  | none => s
+  | some .reported => (step s (.detect cid)).1
+  | some _ => (step s (.remove cid)).1
+
 /-- this router as the router-level send under the entry points of `Model/C09Entries.lean`:
 `n` messages in one `Router.Send`; a write on a stale connection fails -/
 def rsend : RS St := fun s d n => send s d (List.replicate n 0) false
@@ -230,6 +238,11 @@ structure State where
   /-- victims that are full servers: (peer, trees its current incarnation has registered) -/
   speers : List (Nat × List Nat) := []
   msgs : Nat := 0
+  /-- connections opened by raw peers (a socket the harness drives frame by frame) that are still
+  open: (peer, serial number of the connection for that peer, connection id) -/
+  raw : List (Nat × Nat × Nat) := []
+  /-- serial number the next raw connection of a peer gets: (peer, number) -/
+  rawNext : List (Nat × Nat) := []
   deriving Repr
 
 def init : State := {}
@@ -287,6 +300,30 @@ def lose (d : State) (p : Peer) : State × String :=
   ({ d with core := { s2 with calls := [] } },
     if d.rh.isEmpty then told else told ++ s!" notices={s2.delivered.length - s.delivered.length}")
 
+/-- the entries of `p` in table order, by the serial numbers of the raw connections -/
+def rawTable (d : State) (p : Peer) : String :=
+  let l := (d.core.conns.filter (·.peer == p)).filterMap fun c =>
+    (d.raw.find? fun (q, _, cid) => q == p && cid == c.id).map fun (_, k, _) => toString k
+  if l.isEmpty then "-" else ",".intercalate l
+
+def parseEv : Char → Option PeerEv
+  | 'g' => some (.good 0)
+  | 'x' => some .garbage
+  | 'b' => some .tooBig
+  | 'c' => some .fin
+  | 'p' | 'q' => some .finInside
+  | 'r' => some .reset
+  | 't' => some .silence
+  | _ => none
+
+def showClass : ErrClass → String
+  | .closed => "closed"
+  | .canceled => "canceled"
+  | .eof => "eof"
+  | .timeout => "timeout"
+  | .unknown => "unknown"
+  | .other => "other"
+
 def setTni (d : State) (k : Nat) (t : Tni) : State :=
   { d with tnis := (k, t) :: d.tnis.filter (·.1 != k) }
 
@@ -321,6 +358,16 @@ def setTni (d : State) (k : Nat) (t : Tni) : State :=
 * `tsend <k> <sendto|parent|children|parallel|multicast|broadcast> <dests|->` — the entry point on
   instance k (`sendto -`: nil destination); answer `<ok|err:k> delivered=<d>`, configuration
   messages counted
+* `herr <7 bits>` — `handleError` on an error with these features (`closedText pipeText cancelText
+  isEOF eofText netErr timeout`); answer: the class
+* `rawconn <p> <id|noid|halfid|wrongtype>` — peer p (no router: a socket driven by the harness) opens
+  a connection to the survivor and sends its identity / closes at once / closes inside the identity
+  frame / sends another message first; answer `table=<serial numbers of p's connections in table order>`
+* `rawev <p> <k> <events>` — on p's raw connection number k the peer does, one after the other:
+  `g` a good frame, `x` an undecodable frame, `b` a header announcing too big a frame, `c` close,
+  `p` / `q` close inside a header / a body, `r` reset, `t` silence until the read time-out (only when
+  this is the survivor's only connection: every idle connection times out); events after the one
+  that ends the loop are not sent; answer `dispatched=<d> told=<calls> table=<…>`
 -/
 def step (d : State) (toks : List String) : State × String :=
   let s := d.core
@@ -342,7 +389,8 @@ def step (d : State) (toks : List String) : State × String :=
   | ["send", e, ds, n] =>
     match Util.natList ds, n.toNat? with
     | some ds, some n =>
-      if n = 0 ∧ e ≠ "router" then (d, "bad-op") else
+      -- a raw peer reads nothing the survivor sends
+      if (n = 0 ∧ e ≠ "router") ∨ ds.any (fun x => d.raw.any (·.1 == x)) then (d, "bad-op") else
       match runEntry s e ds n with
       | some (s', errs) => ({ d with core := s' }, answer s s' errs)
       | none => (d, "bad-op")
@@ -408,6 +456,46 @@ def step (d : State) (toks : List String) : State × String :=
       let s1 := (send s p [0] false).1
       let r := lose { d with core := s1 } p
       (r.1, s!"returned={n} panics=0 told={r.2}")
+    | _, _, _ => (d, "bad-op")
+  | ["herr", bits] =>
+    match bits.toList.map (fun c => if c = '1' then some true else if c = '0' then some false else none) with
+    | [some a, some b, some c, some e, some f, some g, some h] =>
+      -- `io.EOF` is one value: its text is "EOF", it is no `net.Error`
+      if e ∧ (!f ∨ a ∨ b ∨ c ∨ g ∨ h) then (d, "bad-op") else
+      (d, showClass (handleError { closedText := a, pipeText := b, cancelText := c, isEOF := e, eofText := f, netErr := g, timeout := h }))
+    | _ => (d, "bad-op")
+  | ["rawconn", p, how] =>
+    match p.toNat? with
+    | some p =>
+      let mine := d.raw.filter (·.1 == p)
+      -- a peer that runs a router is no raw peer
+      if p = 0 ∨ (mine.isEmpty ∧ s.up.contains p) ∨ (d.speers.lookup p).isSome then (d, "bad-op")
+      else if how = "id" then
+        let k := (d.rawNext.lookup p).getD 0
+        let s1 := (C09.step s (.peerUp p)).1
+        let s2 := (C09.step s1 (.accept p)).1
+        let d' := { d with core := s2, raw := d.raw ++ [(p, k, s1.next)],
+                           rawNext := (p, k + 1) :: d.rawNext.filter (·.1 != p) }
+        (d', s!"table={rawTable d' p}")
+      else if how = "noid" ∨ how = "halfid" ∨ how = "wrongtype" then (d, s!"table={rawTable d p}")
+      else (d, "bad-op")
+    | none => (d, "bad-op")
+  | ["rawev", p, k, evs] =>
+    match p.toNat?, k.toNat?, evs.toList.mapM parseEv with
+    | some p, some k, some evs =>
+      match d.raw.find? (fun (q, j, _) => q == p && j == k) with
+      | some (_, _, cid) =>
+        if evs.isEmpty ∨ !d.rh.isEmpty ∨ (evs.contains .silence ∧ s.conns.length ≠ 1) then (d, "bad-op") else
+        let o := recvLoop (evs.map fun e => { r := e.recv })
+        let s1 := endLoop s cid o.exit
+        let raw' := if o.exit.isSome then d.raw.filter (fun (q, j, _) => !(q == p && j == k)) else d.raw
+        -- the last connection of a raw peer is gone: nothing of it is left
+        let s2 := if (raw'.filter (·.1 == p)).isEmpty then (C09.step s1 (.peerDown p)).1 else s1
+        let newCalls := s2.calls.drop s.calls.length
+        let told := if newCalls.isEmpty then "-" else ",".intercalate (newCalls.map fun (h, q) => s!"{h}>{q}")
+        let d' := { d with core := { s2 with calls := [] }, raw := raw' }
+        (d', s!"dispatched={o.dispatched.length} told={told} table={rawTable d' p}")
+      | none => (d, "bad-op")
     | _, _, _ => (d, "bad-op")
   | ["pause"] => (d, "ok")
   | ["kill", p] =>
